@@ -74,6 +74,18 @@ def guarded_accesses(f):
             yield n
 
 
+def only_when_raise_or_guard(f, c, praise):
+    """the call is guarded by a condition that has `raise` as a conjunct"""
+    child = c
+    for a_ in f.ancestors(c):
+        if a_["k"] == "if" and any(z is child for z in walk(a_["c"][a_["r"].index("then")])):
+            cnd = a_["c"][a_["r"].index("cond")]
+            if any(y["k"] == "ref" and y.get("d") == praise["d"] for y in walk(cnd)):
+                return True
+        child = a_
+    return False
+
+
 def run(ctx):
     R = ctx.report
     tus = list(TUS)
@@ -361,18 +373,57 @@ def run(ctx):
             "~section_t waits for all futures (block(false))", "~section_t no longer waits for its futures")
     block = F.one("nano::parallel::section_t::block", "src/core/parallel.cpp")
     rf = [n for n in block.nodes() if n["k"] == "rangefor"]
-    okb = False
-    if len(rf) == 1:
-        rng = pp(rf[0]["c"][1])
-        gets = [c for c in walk(rf[0]["c"][2]) if c["k"] == "call" and callee(c) in ("std::shared_future::get",)]
-        waits = [c for c in walk(rf[0]["c"][2]) if c["k"] == "call" and callee(c).endswith("::wait")]
-        okb = rng == "(*this)" and len(gets) == 1 and len(waits) == 1
-        # get and wait must be the two arms of one conditional on `raise`
-        for n in walk(rf[0]["c"][2]):
-            if n["k"] == "cond":
-                okb = okb and pp(n["c"][0]) == "raise" and callee(skip(n["c"][1])) == "std::shared_future::get"
-    R.check(okb, "R-C17-5", "section block", block.loc(), "block() visits every future: get() when raising, wait() otherwise",
-            "block() does not wait on every stored future")
+    praise = block.param("raise")
+    if len(rf) != 1 or pp(rf[0]["c"][1]) != "(*this)" or praise is None:
+        R.bad("R-C17-5", "section block", block.loc(), "block() no longer visits every stored future in one loop over *this")
+    else:
+        body = rf[0]["c"][2]
+        gets = [c for c in walk(body) if c["k"] == "call" and callee(c) in ("std::shared_future::get", "std::future::get")]
+        waits = [c for c in walk(body) if c["k"] == "call" and callee(c).endswith("::wait")]
+
+        def only_when_raise(c):
+            """the call is executed only if `raise` is true (arm of `raise ? .. : ..` / then-branch of `if (raise)`)"""
+            child = c
+            for a_ in block.ancestors(c):
+                if a_["k"] == "cond" and ref_decl(a_["c"][0]) == praise["d"]:
+                    return any(z is child for z in walk(a_["c"][1]))
+                if a_["k"] == "if" and ref_decl(a_["c"][a_["r"].index("cond")]) == praise["d"]:
+                    return any(z is child for z in walk(a_["c"][a_["r"].index("then")]))
+                child = a_
+            return False
+
+        def caught_all(c):
+            child = c
+            for a_ in block.ancestors(c):
+                if a_["k"] == "try" and a_.get("c") and any(z is child for z in walk(a_["c"][0])):
+                    return any(h is not None and h.get("k") == "catch" and h.get("all") for h in a_["c"][1:])
+                child = a_
+            return False
+        # every future is waited for: a get() or a wait() on every path through the loop body for a valid future
+        def branch_of(c):
+            """True / False: executed only when raise is true / false; None: whatever raise is"""
+            child = c
+            for a_ in block.ancestors(c):
+                if a_["k"] == "cond" and ref_decl(a_["c"][0]) == praise["d"]:
+                    return any(z is child for z in walk(a_["c"][1]))
+                if a_["k"] == "if" and ref_decl(a_["c"][a_["r"].index("cond")]) == praise["d"]:
+                    return any(z is child for z in walk(a_["c"][a_["r"].index("then")]))
+                child = a_
+            return None
+        brs = [branch_of(c) for c in gets + waits]
+        covered = all(any(b_ is None or b_ == v for b_ in brs) for v in (True, False))
+        R.check(covered, "R-C17-5", "section block", block.loc(), "block() waits (get() or wait()) on every stored future", "block() does not wait on every stored future")
+        # without `raise` nothing may escape: get() (which re-throws the task's exception) runs only when raise is set, or inside try { } catch (...)
+        leak = [c for c in gets if not only_when_raise(c) and not caught_all(c)]
+        R.check(not leak, "R-C17-5", "section block quiet", block.loc(leak[0]) if leak else block.loc(),
+                "with raise == false no exception of a task leaves block() (the destructor relies on it)",
+                "`%s` runs also when `raise` is false and is not inside try { } catch (...): an exception of a type the handlers do not name leaves block(false) - from "
+                "~section_t (noexcept) that is std::terminate, and the caller of map(..., raise = true) never receives the task's exception" % (pp(leak[0])[:30] if leak else ""))
+        # with `raise` the exception reaches the caller: a get() outside any try, or a rethrow of what was caught
+        deliver = any(only_when_raise(c) and not any(a_["k"] == "try" for a_ in block.ancestors(c)) for c in gets) or \
+            any(c["k"] == "call" and callee(c) == "std::rethrow_exception" and only_when_raise_or_guard(block, c, praise) for c in block.nodes()) or \
+            any(x["k"] == "throw" for x in block.nodes())
+        R.check(deliver, "R-C17-5", "section block raise", block.loc(), "with raise == true a task's exception is re-thrown to the caller", "block(true) no longer re-throws a task's exception")
 
     # ---- R-C17-6 tiling
     for f in maps:
